@@ -336,6 +336,39 @@ func sameFrames(a, b []wsref.Frame) (int, bool) {
 	return 0, true
 }
 
+// c06Judge compares what one read API delivered with what the peer sent.
+func c06Judge(x *engine.X, api int, s *wsSession, d delivered, vs *vstream.Stream) {
+	if d.err != nil {
+		x.Fail("ws.read/conforming-session-rejected", "%s returned %v on a conforming session %v", apiNames[api], d.err, s.frames)
+	}
+	if vs.Overlap != "" {
+		x.Fail("ws.read/overlapping-transport-"+vs.Overlap, "two transport %ss were in flight at once", vs.Overlap)
+	}
+	if api < 2 {
+		if i, ok := sameFrames(d.frames, s.frames); !ok {
+			x.Fail("ws.read/frame-sequence", "%s delivered %v, the peer sent %v (first difference at %d)", apiNames[api], d.frames, s.frames, i)
+		}
+	} else {
+		if len(d.msgs) != len(s.msgs) {
+			x.Fail("ws.read/message-count", "%s delivered %d messages, the peer sent %d (frames %v)", apiNames[api], len(d.msgs), len(s.msgs), s.frames)
+		}
+		for i := range s.msgs {
+			if d.msgs[i].typ != s.msgs[i].typ {
+				x.Fail("ws.read/message-type", "message %d delivered with type %d, sent as %d (frames %v)", i, d.msgs[i].typ, s.msgs[i].typ, s.frames)
+			}
+			if len(d.msgs[i].payload) != len(s.msgs[i].payload) {
+				x.Fail("ws.read/message-length", "message %d delivered with %d bytes, sent %d (frames %v)", i, len(d.msgs[i].payload), len(s.msgs[i].payload), s.frames)
+			}
+			if string(d.msgs[i].payload) != string(s.msgs[i].payload) {
+				x.Fail("ws.read/message-payload", "message %d payload differs from what was sent (frames %v)", i, s.frames)
+			}
+		}
+		if i, ok := sameFrames(d.ctls, s.ctls); !ok {
+			x.Fail("ws.read/control-callback", "control callback saw %v, the peer sent %v (first difference at %d)", d.ctls, s.ctls, i)
+		}
+	}
+}
+
 func c06Body(tier string) func(x *engine.X) {
 	lengths := []int{1, 0, 125, 126, 127, 65535, 65536, c06Max}
 	maxMsgs := 2
@@ -363,35 +396,7 @@ func c06Body(tier string) func(x *engine.X) {
 		x.Guard("ws.read/panic", func() {
 			d = readAll(x, ws, vs, api, deferred, len(s.frames)+len(s.msgs)+3, c06Max+16)
 		})
-		if d.err != nil {
-			x.Fail("ws.read/conforming-session-rejected", "%s returned %v on a conforming session %v", apiNames[api], d.err, s.frames)
-		}
-		if vs.Overlap != "" {
-			x.Fail("ws.read/overlapping-transport-"+vs.Overlap, "two transport %ss were in flight at once", vs.Overlap)
-		}
-		if api < 2 {
-			if i, ok := sameFrames(d.frames, s.frames); !ok {
-				x.Fail("ws.read/frame-sequence", "%s delivered %v, the peer sent %v (first difference at %d)", apiNames[api], d.frames, s.frames, i)
-			}
-		} else {
-			if len(d.msgs) != len(s.msgs) {
-				x.Fail("ws.read/message-count", "%s delivered %d messages, the peer sent %d (frames %v)", apiNames[api], len(d.msgs), len(s.msgs), s.frames)
-			}
-			for i := range s.msgs {
-				if d.msgs[i].typ != s.msgs[i].typ {
-					x.Fail("ws.read/message-type", "message %d delivered with type %d, sent as %d (frames %v)", i, d.msgs[i].typ, s.msgs[i].typ, s.frames)
-				}
-				if len(d.msgs[i].payload) != len(s.msgs[i].payload) {
-					x.Fail("ws.read/message-length", "message %d delivered with %d bytes, sent %d (frames %v)", i, len(d.msgs[i].payload), len(s.msgs[i].payload), s.frames)
-				}
-				if string(d.msgs[i].payload) != string(s.msgs[i].payload) {
-					x.Fail("ws.read/message-payload", "message %d payload differs from what was sent (frames %v)", i, s.frames)
-				}
-			}
-			if i, ok := sameFrames(d.ctls, s.ctls); !ok {
-				x.Fail("ws.read/control-callback", "control callback saw %v, the peer sent %v (first difference at %d)", d.ctls, s.ctls, i)
-			}
-		}
+		c06Judge(x, api, s, d, vs)
 		// outbound: exactly one masked pong per ping, same payload, same order
 		vs.DeferWrite = nil
 		vs.StepWrite()
@@ -432,6 +437,10 @@ func C06(tier string) *engine.Report {
 	tot.Add(d.Run(), rep)
 	// a second session on the same Stream (the in-memory driver above never goes through the opening handshake)
 	tot.Add(c18ResumedDFS(tier).Run(), rep)
+	// payload-inspecting reader option: ValidateUTF8(true) against every fragmentation of short text and binary payloads
+	ures := c06UTF8DFS(tier).Run()
+	tot.Add(ures, rep)
+	rep.Coverage["utf8_family"] = map[string]any{"executions": ures.Executions, "finished": ures.Exhaustive, "violations": len(ures.Violations)}
 	tot.Fill(rep, "sessions generated from choice points (message count, type, 8 payload length classes up to the maximum, fragmentation into <=3 fragments incl. empty ones, ping/pong in any gap, a cut at any byte position or byte-by-byte delivery) "+
 		"x 4 read APIs x inline/deferred completion; all combinations of up to N deviations (fragmentation, control insertion, text type, extra message, each cut) from the default session; "+
 		"non-trivial = the stream was segmented or contained a control frame, or a deviation was taken; plus, over real TCP, every shape of an earlier session on the same Stream (dropped with unread input, queued replies, a failed write) x blocking/async handshake x 0-2 frames sent with the response: the second session delivers exactly what its server sent", d.MaxDeviations)
@@ -441,6 +450,9 @@ func C06(tier string) *engine.Report {
 func C06Replay(v engine.Violation, log func(string)) *engine.Violation {
 	if strings.HasPrefix(v.Config, "resumed-session@") {
 		return c18ResumedDFS(v.Config[16:]).ReplayChoices(v.Choices)
+	}
+	if strings.HasPrefix(v.Config, "utf8@") {
+		return c06UTF8DFS(v.Config[5:]).ReplayChoices(v.Choices)
 	}
 	tier := "quick"
 	if len(v.Config) > 9 {
